@@ -36,7 +36,7 @@ LEVELS = {
 }
 BUDGET = {'quick': float(os.environ.get('VERIF_QUICK_S', 40)), 'thorough': float(os.environ.get('VERIF_THOROUGH_S', 600))}
 CHUNK = 48  # multiple of 16: a chunk of a sched:* profile covers whole programs
-RUN_CPU_CAP = 15  # CPU seconds per single simulated run
+RUN_CPU_CAP = 30  # CPU seconds per single simulated run
 RUN_WALL_CAP = 240  # wall seconds per single simulated run (backstop)
 
 
@@ -103,7 +103,9 @@ def work_chunk(args):
     known_idx = {tuple(k): {'id': i} for k, i in known_keys}
     for seed in seeds:
         sc = props.make_scenario(prop, profile, seed)
+        c0 = time.process_time()
         r = run_guarded(prop, sc)
+        agg['max_cpu'] = max(agg.get('max_cpu', 0.0), time.process_time() - c0)
         agg['runs'] += 1
         if 'harness' in r:
             agg['harness'].append((profile, seed, str(r['harness'])[-600:]))
@@ -302,6 +304,7 @@ def main():
                     continue
                 for k in ('runs', 'steps', 'vt', 'nontrivial', 'tainted'):
                     agg[k] += a[k]
+                agg['max_cpu'] = max(agg.get('max_cpu', 0.0), a.get('max_cpu', 0.0))
                 agg['abstract'].update(a['abstract'])
                 agg['abstract_nt'].update(a['abstract_nt'])
                 for k in ('faults_runs', 'faults_total', 'probes', 'ends'):
@@ -382,6 +385,7 @@ def main():
             'runs_per_hour': int(agg['runs'] / max(explore_wall, 1e-6) * 3600),
             'simulated_seconds': round(agg['vt'], 3),
             'callbacks_executed': agg['steps'],
+            'max_cpu_seconds_of_a_single_run': round(agg.get('max_cpu', 0.0), 2),
             'distinct_abstract_traces': len(agg['abstract']),
             'nontrivial_runs': agg['nontrivial'],
             'runs_by_profile': dict(agg['by_profile']),
@@ -412,7 +416,7 @@ def main():
     if not os.environ.get('VERIF_NO_EVIDENCE'):  # (mutant runs against scratch copies must not overwrite evidence)
         json.dump(evidence, open(os.path.join(ROOT, 'evidence', f'{prop}.json'), 'w'), indent=1, default=str)
     print(f'{prop}: runs={agg["runs"]} nontrivial={agg["nontrivial"]} distinct_nt={len(agg["abstract_nt"])} wall={wall:.1f}s '
-          f'known={dict(known_seen)} violations={len(reported)} harness_errors={len(harness_errors)} det_checked={det["checked"]}', flush=True)
+          f'max_run_cpu={agg.get("max_cpu", 0.0):.1f}s known={dict(known_seen)} violations={len(reported)} harness_errors={len(harness_errors)} det_checked={det["checked"]}', flush=True)
     if harness_errors:
         for h in harness_errors[:8]:
             print('HARNESS-ERROR', str(h)[:700], flush=True)
